@@ -174,6 +174,18 @@ func main() {
 		rng := root.Derive("ops", i)
 		L := rng.Range(run.N(5, 15), run.N(10, 40))
 		histOps[i] = wl.GenOps(rng, L, w, 25)
+		// motifs that need several cooperating steps before a restart shows anything
+		switch i % 3 {
+		case 0: // a keystore created (or imported) AFTER a public passphrase change
+			ins := []wl.Op{{Kind: "chpub", PC: "cur", NPC: "fresh"}, {Kind: "create", PC: "cur", SeedKind: "fresh", Remark: "after-chpub"}, {Kind: "next", N: 2}}
+			pos := 1 + rng.Intn(len(histOps[i]))
+			histOps[i] = append(histOps[i][:pos], append(ins, histOps[i][pos:]...)...)
+		case 1: // a keystore deleted and created again from the same seed, with fewer keys than before
+			ins := []wl.Op{{Kind: "next", N: 3, K: 0}, {Kind: "next", N: 2, Internal: true, K: 0}, {Kind: "delete", PC: "cur", K: 0}, {Kind: "create", PC: "cur", SeedKind: "revive", Remark: "again"}, {Kind: "next", N: 1, K: 7}, {Kind: "genpub"}}
+			pos := 1 + rng.Intn(len(histOps[i]))
+			histOps[i] = append(histOps[i][:pos], append(ins, histOps[i][pos:]...)...)
+		}
+		L = len(histOps[i])
 		if run.Thorough() {
 			for _, p := range rng.Perm(L)[:8] {
 				jobs = append(jobs, job{i, p + 1, ci})
